@@ -25,6 +25,10 @@ class C14(Prop):
         for k in range(N):
             kind = rng.choice(["hes", "hqs"])
             h = rng.choice(sc.HES_DEGREES if kind == "hes" else sc.HQS_DEGREES)
+            if kind == "hes" and rng.random() < 0.06:
+                # a degree next to (not on) the poles 0 and 1 of the general formula: it is that formula which applies there, the
+                # closed forms of degree 0 / 1 scale differently (tolerance: rounding of the largest term, which carries 1/|h(h-1)|)
+                h = rng.choice([1 - 4e-6, 4e-6, -4e-6, 1 + 4e-6])
             lv = rng.choice(sc.LEVELS)
             n = rng.randint(1, 5)
             pairs = [sc.gen_pair(rng, kind, h, lv) for _ in range(n)]
@@ -142,7 +146,8 @@ class C14(Prop):
             return None
 
         if st == "scale":
-            return cmp(io["scaled"], f"S(c*y, c*z) != c^degree * S(y, z) for c={case['c']}, degree={h}", math.pow(case["c"], h), rel=1e-10)
+            near_pole = k == "hes" and 0 < min(abs(h), abs(h - 1)) < 1e-4
+            return cmp(io["scaled"], f"S(c*y, c*z) != c^degree * S(y, z) for c={case['c']}, degree={h}", math.pow(case["c"], h), rel=1e-12 if near_pole else 1e-10)
         if st == "named":
             return cmp(io["family"], f"{k} differs from its family member", rel=1e-12)
         if st == "half":
